@@ -325,7 +325,15 @@ const SECRET_FILES: &[&str] = &[
     "crates/ripd/src/openresponses_observability.rs",
 ];
 
+thread_local! {
+    /// guard variable → lock id, recorded at `let <name> = <lock expression>;` of the function being read
+    static GUARD_NAMES: std::cell::RefCell<std::collections::HashMap<String, u32>> = std::cell::RefCell::new(std::collections::HashMap::new());
+}
+
 fn lock_id_of_guard(guard: &str) -> u32 {
+    if let Some(n) = GUARD_NAMES.with(|g| g.borrow().get(guard).cloned()) {
+        return n;
+    }
     match guard {
         "guard" => 1,
         "seq" => 2,
@@ -363,6 +371,9 @@ fn effects_of_block(b: &syn::Block, out: &mut Vec<Eff>) {
                             locks.remove(pos);
                         }
                         scope_guards.push(n);
+                        if let syn::Pat::Ident(pi) = &l.pat {
+                            GUARD_NAMES.with(|g| g.borrow_mut().insert(pi.ident.to_string(), n));
+                        }
                     }
                     for n in locks.into_iter().rev() {
                         if !already_unlocked(&effs, n) {
@@ -379,7 +390,12 @@ fn effects_of_block(b: &syn::Block, out: &mut Vec<Eff>) {
         }
     }
     for n in scope_guards.into_iter().rev() {
-        out.push(Eff::Unlock(n));
+        // an explicit `drop(guard)` after the lock already released it
+        let last_lock = out.iter().rposition(|e| *e == Eff::Lock(n));
+        let released = last_lock.map(|p| out[p..].iter().any(|e| *e == Eff::Unlock(n))).unwrap_or(false);
+        if !released {
+            out.push(Eff::Unlock(n));
+        }
     }
 }
 
@@ -788,6 +804,7 @@ fn main() {
             None => errors.push(format!("{file}: function {path} not found")),
             Some(block) => {
                 let mut effs = Vec::new();
+                GUARD_NAMES.with(|g| g.borrow_mut().clear());
                 effects_of_block(&block, &mut effs);
                 let mut ec = ExitCount { n: 0 };
                 ec.visit_block(&block);
